@@ -29,6 +29,10 @@ pub struct Recipe {
     /// slots per access-list entry
     pub access_list: Vec<u16>,
     pub to_present: bool,
+    /// 0 = all slots and addresses distinct; 1 = every slot repeated at the next position; 2 = all slots of
+    /// an entry equal; 3 = all entries share one address and one slot value
+    #[serde(default)]
+    pub repeats: u8,
 }
 
 fn build(r: &Recipe) -> (String, TxModel) {
@@ -62,13 +66,31 @@ fn build(r: &Recipe) -> (String, TxModel) {
             .map(|n| {
                 let mut a = [0u8; 20];
                 p.fill(&mut a);
-                let slots = (0..*n)
+                let _ = &mut a;
+                let mut slots: Vec<[u8; 32]> = (0..*n)
                     .map(|_| {
                         let mut s = [0u8; 32];
                         p.fill(&mut s);
                         s
                     })
                     .collect();
+                match r.repeats {
+                    1 => {
+                        for i in (1..slots.len()).step_by(2) {
+                            slots[i] = slots[i - 1];
+                        }
+                    }
+                    2 | 3 => {
+                        if let Some(f) = slots.first().copied() {
+                            slots.iter_mut().for_each(|s| *s = f);
+                        }
+                    }
+                    _ => {}
+                }
+                if r.repeats == 3 {
+                    a = [0x77; 20];
+                    slots.iter_mut().for_each(|s| *s = [0x01; 32]);
+                }
                 (a, slots)
             })
             .collect()
@@ -305,7 +327,7 @@ pub fn run(ctx: &mut Ctx) {
     *SEEN.lock().unwrap() = Some(HashMap::new());
     let t = ctx.tier;
     let mut recipes = vec![];
-    let base = |shape: u8, data_len: usize, seed: u64| Recipe { shape, data_len, data_seed: seed, single: None, field: None, access_list: vec![], to_present: true };
+    let base = |shape: u8, data_len: usize, seed: u64| Recipe { shape, data_len, data_seed: seed, single: None, field: None, access_list: vec![], to_present: true, repeats: 0 };
     for len in 0..=1100usize {
         let shape = (len % 4) as u8;
         let mut r = base(shape, len, ctx.sub_seed("calldata", len as u64));
@@ -350,7 +372,15 @@ pub fn run(ctx: &mut Ctx) {
                 let mut r = base(shape, (entries * 9 + slots) as usize, ctx.sub_seed("al", (entries as u64) << 8 | slots as u64));
                 r.access_list = (0..entries).map(|e| if e % 2 == 0 { slots } else { slots / 2 }).collect();
                 r.to_present = slots % 2 == 0;
-                recipes.push(r);
+                recipes.push(r.clone());
+                // the same shape with repeated storage keys / addresses: [k] and [k,k] are different lists
+                for rep in 1..=3u8 {
+                    if slots >= 2 || (rep == 3 && entries >= 2) {
+                        let mut q = r.clone();
+                        q.repeats = rep;
+                        recipes.push(q);
+                    }
+                }
             }
         }
     }
